@@ -147,6 +147,13 @@ func (pq *KeyGroupPriorityQueue) Pop() ([]byte, bool) {
 
 func (pq *KeyGroupPriorityQueue) Push(data []byte) {
 	pq.loadFromDB()
+	// While part of the data is only in the DB, the cache holds the earliest
+	// timers. An item after the last cached one belongs to the uncached rest:
+	// caching it would serve it before earlier timers that are still in the DB.
+	if last, ok := pq.cache.PeekLast(); ok && !pq.allDataInCache && bytes.Compare(data, last) > 0 {
+		pq.db.Put(data, nil)
+		return
+	}
 	pq.cache.Push(data)
 
 	// If pushing the item exceeded the cache capacity, evict items until we're back under the limit
